@@ -31,8 +31,9 @@ def mc(v, tier):
     if tier == "thorough":
         cfgs += [dict(names='{"n1", "n2"}', types='{"A", "B"}', data='{"d1"}', ttls="{0, 1, 2}", desired=1, tick=500,
                       tmax=3500, extra=INVS),
-                 dict(names='{"n1", "n2", "n3"}', types='{"A"}', data='{"d1", "d2"}', ttls="{1, 2}", desired=2,
-                      tick=500, tmax=2500, extra=INVS)]
+                 # several records of one type under one name (record sets with more than one member)
+                 dict(names='{"n1", "n2"}', types='{"A"}', data='{"d1", "d2"}', ttls="{0, 1, 2}", desired=1,
+                      tick=500, tmax=3000, extra=INVS)]
     for c in cfgs:
         r = tlc("CacheImpl", None, cfg_text=MC_CFG % c, timeout=3000, workers=max(2, vlib.NCPU - 4))
         vlib.require_ok(r, "CacheImpl")
